@@ -1,6 +1,52 @@
-(* Runner for property C14: wire arguments -> model -> wire result. Filled in by the C14 model. *)
+(* Runner for property C14: wire arguments -> model -> wire result.
+     c14 header <signed> <uuid_ok> <digest_present> ( stamp... ) ( link... )
+         stamp = ( prv val ) or ( ) for a nil entry; link = ( key url_ok url ) or ( ) for nil
+         -> two results, as shipped and repaired: 0 = valid, 1 = validation error, "panic";
+            for signed = 1 only panic / 2
+            (the signed context can only be reached through an envelope, whose other checks
+            then decide between valid and error)
+     c14 notes ( scenario note... ) ( note... )      note = ( key code src text ) or ( )
+         -> as shipped: ( remaining notes ) or "panic"                                          *)
 From Coq Require Import ZArith List String Bool.
-From Verif Require Import Base.Wire.
+From Verif Require Import Base.Wire Crash.Result Crash.ScenarioNotes Crash.HeaderValidate.
 Import ListNotations.
 
-Definition run_c14 (args : list V) : list V := [verr "not-implemented"].
+Definition stamp_of (v : V) : option stamp :=
+  match v with VL [a; b] => Some (mkStamp (vz a) (vz b)) | _ => None end.
+Definition link_of (v : V) : option link :=
+  match v with VL [a; b; c] => Some (mkLink (vz a) (vbool b) (vz c)) | _ => None end.
+Definition note_of (v : V) : option note :=
+  match v with VL [a; b; c; d] => Some (mkNote (vz a) (vz b) (vz c) (vz d)) | _ => None end.
+Definition vnote (n : option note) : V :=
+  match n with Some x => VL [VI (n_key x); VI (n_code x); VI (n_src x); VI (n_text x)] | None => VL [] end.
+
+Definition run_c14 (args : list V) : list V :=
+  match args with
+  | o :: rest =>
+    let op := opname o in
+    if String.eqb op "header" then
+      match rest with
+      | [sg; u; d; ss; ls] =>
+        let h := mkHeader (vbool u) (vbool d) (map stamp_of (vl ss)) (map link_of (vl ls)) in
+        let cls (g : bool) :=
+          match validate_header g (vbool sg) h with
+          | Panic => VS (bs "panic")
+          | Ok _ => VI (if vbool sg then 2 else 0)
+          | Err _ => VI (if vbool sg then 2 else 1)
+          end in
+        [cls false; cls true]
+      | _ => [verr "bad-args"]
+      end
+    else if String.eqb op "notes" then
+      match rest with
+      | [sns; ns] =>
+        let s := fold_right (fun v acc => match note_of v with Some x => x :: acc | None => acc end) [] (vl sns) in
+        match remove_notes_shipped s (map note_of (vl ns)) with
+        | Ok r => [VL (map vnote r)]
+        | _ => [VS (bs "panic")]
+        end
+      | _ => [verr "bad-args"]
+      end
+    else [verr "unknown-c14-op"]
+  | [] => [verr "unknown-c14-op"]
+  end.
